@@ -105,6 +105,12 @@ fn validate(s: &str) -> Verdict {
     if total > 253 {
         return Verdict::Invalid("name longer than 253");
     }
+    // The documentation sets no limit on the number of parameters, but the router library cannot
+    // register a pattern with more than 25: whether such a guard is refused or not is not judged,
+    // only that an *accepted* guard can be registered (see `oracle`).
+    if labels.iter().filter(|l| l.param.is_some()).count() > 25 {
+        return Verdict::Unknown("more than 25 parameters (router limit, undocumented)");
+    }
     Verdict::Valid(labels)
 }
 
@@ -185,6 +191,17 @@ pub fn oracle(c: &Case) -> CaseResult {
     let labels = match (&mine, &real) {
         (Verdict::Unknown(why), _) => {
             info.lab(format!("validator:undecided({why})"));
+            // whatever the compiler accepts must at least be registrable in the router
+            if let Ok((_, pattern)) = &real {
+                let p = pattern.clone();
+                let registered = crate::catch(move || matchit::Router::new().insert(p, ()).map_err(|e| e.to_string()));
+                match registered {
+                    Ok(Ok(())) => {}
+                    Ok(Err(e)) => return Err(Fail::new("unroutable-pattern", format!("`{}` is accepted but its router pattern `{pattern}` cannot be registered: {e}", c.guard))),
+                    Err(panic) => return Err(Fail::new("unroutable-pattern:router-panics", format!("`{}` is accepted but registering its router pattern `{pattern}` makes the router panic: {panic}", c.guard))),
+                }
+                info.set_nontrivial(true);
+            }
             return Ok(info);
         }
         (Verdict::Valid(_), Err(e)) => {
@@ -212,11 +229,25 @@ pub fn oracle(c: &Case) -> CaseResult {
         return Err(Fail::new("normalisation", format!("`{}` is normalised to `{norm}`, expected `{want_norm}`", c.guard)));
     }
     let mut router = matchit::Router::new();
-    if let Err(e) = router.insert(pattern.clone(), ()) {
-        return Err(Fail::new(
-            "unroutable-pattern",
-            format!("`{}` is accepted but its router pattern `{pattern}` cannot be registered: {e}", c.guard),
-        ));
+    let inserted = {
+        let p = pattern.clone();
+        let r = &mut router;
+        crate::catch(std::panic::AssertUnwindSafe(move || r.insert(p, ()).map_err(|e| e.to_string())))
+    };
+    match inserted {
+        Ok(Ok(())) => {}
+        Ok(Err(e)) => {
+            return Err(Fail::new(
+                "unroutable-pattern",
+                format!("`{}` is accepted but its router pattern `{pattern}` cannot be registered: {e}", c.guard),
+            ));
+        }
+        Err(panic) => {
+            return Err(Fail::new(
+                "unroutable-pattern:router-panics",
+                format!("`{}` is accepted but registering its router pattern `{pattern}` makes the router panic: {panic}", c.guard),
+            ));
+        }
     }
     let has_param = labels.iter().any(|l| l.param.is_some());
     let mut near_miss = false;
@@ -373,7 +404,13 @@ fn label(first: bool) -> BoxedStrategy<PLabel> {
 }
 
 fn guard_labels() -> impl Strategy<Value = Vec<PLabel>> {
-    (label(true), prop::collection::vec(label(false), 0..4)).prop_map(|(f, mut rest)| {
+    // mostly 1-5 labels; one case in forty has 20-40 labels (around the router's limit of 25 parameters)
+    let short = prop_oneof![
+        3 => "[a-z]{1,2}".prop_map(|n| PLabel { param: Some((false, format!("p{n}"))), lit: String::new() }),
+        1 => lit(3).prop_map(|l| PLabel { param: None, lit: l }),
+    ];
+    let rest = prop_oneof![39 => prop::collection::vec(label(false), 0..4), 1 => prop::collection::vec(short, 19..40)];
+    (label(true), rest).prop_map(|(f, mut rest)| {
         let mut v = vec![f];
         v.append(&mut rest);
         // parameter names must be unique within a guard
@@ -501,6 +538,27 @@ pub fn case_strategy() -> impl Strategy<Value = Case> {
             }
             Case { guard: g, hosts }
         })
+}
+
+/// Byte decoder for the libFuzzer target `fz_c20`: the guard is the text up to the first NUL byte
+/// (any bytes, read as lossy UTF-8: the validator must cope with every string), the hosts are the
+/// remaining NUL-separated chunks plus, when the harness-side validator accepts the guard, the hosts
+/// derived from it exactly as the proptest campaign derives them.
+pub fn case_from_bytes(data: &[u8]) -> Case {
+    let mut parts = data.split(|b| *b == 0);
+    let guard = String::from_utf8_lossy(parts.next().unwrap_or(&[])).chars().take(300).collect::<String>();
+    // hosts are what an HTTP client can put into a Host header / authority: letters, digits, '-' and '.'
+    // (the same alphabet as the proptest campaign; anything else is not a host the router is ever asked about)
+    let mut hosts: Vec<String> = parts
+        .take(4)
+        .map(|p| p.iter().take(80).map(|b| match b { b'a'..=b'z' | b'A'..=b'Z' | b'0'..=b'9' | b'-' | b'.' => *b as char, x => (b'a' + x % 26) as char }).collect())
+        .filter(|h: &String| !h.is_empty())
+        .collect();
+    if let Verdict::Valid(labels) = validate(&guard) {
+        let salt = data.iter().fold(0u16, |a, b| a.wrapping_mul(31).wrapping_add(*b as u16));
+        hosts.extend(hosts_for(labels, vec!["x1".into(), "api".into(), "z".into()], vec![], salt));
+    }
+    Case { guard, hosts }
 }
 
 pub fn pair_strategy() -> impl Strategy<Value = PairCase> {
